@@ -502,6 +502,38 @@ def run_property(mod, tier, base_seed, only=None, jobs=None):
                     (unknown[0], os.path.relpath(path, load.VERIF_ROOT))
                 )
 
+    # ---- thorough tier: coverage-guided fuzzing (atheris) of selected sub-checks
+    fuzz_report = []
+    if tier == "thorough" and only is None and getattr(mod, "FUZZ", None):
+        import shutil
+        import subprocess
+
+        procs = []
+        for (sub, runs) in mod.FUZZ:
+            out = load.work_dir("fuzz", "%s_%s_%d" % (prop, sub, os.getpid()))
+            cmd = [sys.executable, "-m", "harness.fuzz", prop, sub, "--runs", str(runs),
+                   "--seed", str(derive_seed(base_seed, prop, sub, "fuzz") % 2 ** 31), "--out", out]
+            procs.append((sub, out, subprocess.Popen(cmd, cwd=load.VERIF_ROOT, stdout=subprocess.DEVNULL,
+                                                     stderr=subprocess.DEVNULL)))
+        for sub, out, p in procs:
+            try:
+                rc = p.wait(timeout=float(os.environ.get("VERIF_FUZZ_TIMEOUT", "1500")))
+            except subprocess.TimeoutExpired:
+                p.kill()
+                rc = None
+            stats_file = os.path.join(out, "stats.json")
+            stt = json.load(open(stats_file)) if os.path.exists(stats_file) else {}
+            entry = {"subcheck": sub, "engine": "atheris/libFuzzer + hypothesis.fuzz_one_input",
+                     "executions": stt.get("executions", 0), "distinct_nontrivial": stt.get("distinct_nontrivial", 0),
+                     "status": "not available" if rc == 3 else ("timeout (inconclusive)" if rc is None else "done")}
+            fuzz_report.append(entry)
+            vf = os.path.join(out, "violation.json")
+            if os.path.exists(vf):
+                rec = json.load(open(vf))
+                violations.append({"subcheck": sub, "case": rec["case"], "discrepancies": rec["discrepancies"],
+                                   "seed": int(base_seed), "shard": "fuzz"})
+            shutil.rmtree(out, ignore_errors=True)
+
     # ---- replays for violations
     replay_paths = []
     for v in violations:
@@ -554,6 +586,7 @@ def run_property(mod, tier, base_seed, only=None, jobs=None):
             "fixed_findings": [e["id"] for e in fixed_entries],
             "excluded_by_construction": getattr(mod, "EXCLUDED", []),
             "regression_inputs_replayed": n_regress,
+            "fuzzing": fuzz_report,
         },
         "assumptions": list(getattr(mod, "ASSUMPTIONS", [])) + COMMON_ASSUMPTIONS,
         "wall_s": round(wall, 2),
